@@ -47,6 +47,16 @@ folder, scheme): fdate_calls = plain listing, folder listing, every date dimensi
 folder paths / extensions / patterns, the *_since helpers with and without start folders (quick 31 calls, thorough 107).
 Quick: all 6 schemes on <= 2 folders, schemes {0, 3} on 3; thorough: all on <= 3, {0, 3} on 4. The reference ignores folder
 timestamps: the listing is defined by the files.
+
+Wire names ("names needing URL quoting", for the names that are ADDRESSED BY PATH on the wire): WIRE_NAMES = literal folder
+names whose characters collide with URL syntax - a literal "%XX" sequence (decoding to a space / a letter / "/" / "%" / a
+UTF-8 character), "%" bare and trailing, "+", "#", "&", "=", ";", ",", "'", "(", ")", "~", "@", "!", "$", non-ASCII - together
+with the name each of them would decode to (so the wrongly addressed folder EXISTS as a sibling with different files). The
+transport percent-decodes a request path exactly once, like Graph. Libraries: for every ordered pair (n1, n2) of distinct
+names: root = file, n1/ [file "<n2>.txt", n2/ [file]], n2/ [file "<n1>.pdf"]. Per library x page size: wire_calls = listing,
+list_files_in_folder n1 | n1/n2, folder_paths [n1] | [n2] | [n1/n2] | [n1, n2], folder x extension, folders x date, the *_since helpers
+with start folders; and every request index x WIRE_FAULTS (quick 3 kinds, thorough all FAULT_KINDS) of the folder_paths
+[n1/n2] call (the reported URL must be the requested one). Quick: WIRE_NAMES_QUICK, page size 2; thorough: all names, page sizes 1..3.
 """
 from __future__ import annotations
 
@@ -97,6 +107,11 @@ BODY_KINDS = ["body:" + n for n in MALFORMED_BODIES]
 # and createdDateTime FOLDER_TIMES[(j + s + 2) % len] (None = member absent): far older / 1 s older / equal / 1 s newer / far newer
 # than T0, or missing. A folder's own timestamps say nothing about the files below it.
 FOLDER_TIMES = ["2019-06-01T08:00:00Z", "2024-01-15T10:29:59Z", "2024-01-15T10:30:00Z", "2024-01-15T10:30:01Z", "2031-03-01T08:00:00Z", None]
+# wire names: literal folder names colliding with URL syntax, each next to the name it would (wrongly) decode to; all are legal
+# SharePoint names (" * : < > ? / \\ | are not and stay outside the alphabet)
+WIRE_NAMES_QUICK = ["Q1 Plan", "Q1%20Plan", "A", "%41", "a+b", "a b", "x#y", "50%", "c%2Fd", "\u00fc", "%C3%BC", "r&d=1;v,2"]
+WIRE_NAMES = WIRE_NAMES_QUICK + ["Q1%2520Plan", "%", "100%25", "50%25", "it's (1)~@!$", "%zz", "%4", "a%2Bb"]
+WIRE_FAULTS_QUICK = ["http500", "urlerror", "badjson"]
 
 
 # ---------------------------------------------------------------- library enumeration
@@ -904,6 +919,38 @@ def fdate_calls(tier):
     yield ["created_since", 0, ["A/B"], [".pdf"]]
 
 
+def wire_libraries(tier):
+    """every ordered pair (n1, n2) of distinct wire names: n1 and n2 are siblings under the root, n2 also occurs below n1"""
+    names = WIRE_NAMES_QUICK if tier == "quick" else WIRE_NAMES
+    for n1, n2 in itertools.permutations(names, 2):
+        yield n1, n2, [["f", "a.pdf", 0, "full"],
+                       ["d", n1, [["f", n2 + ".txt", 1, "full"], ["d", n2, [["f", "B.PDF", 2, "full"]]]]],
+                       ["d", n2, [["f", n1 + ".pdf", 2, "full"]]]]
+
+
+def wire_calls(n1, n2):
+    """Calls that address folders by path (and the plain listing) over a wire-name library"""
+    base = {k: v[0] for k, v in FILTER_DIMS.items()}
+    yield ["all"]
+    yield ["folder", n1]
+    yield ["folder", n2]
+    yield ["folder", n1 + "/" + n2]
+    for fps in ([n1], [n2], [n1 + "/" + n2], [n1, n2]):
+        f = dict(base)
+        f["folder_paths"] = fps
+        yield ["filtered", f]
+    f = dict(base)
+    f["folder_paths"] = [n1]
+    f["extensions"] = [".pdf"]
+    yield ["filtered", f]
+    f = dict(base)
+    f["folder_paths"] = [n2, n1 + "/" + n2]
+    f["modified_after"] = 1000
+    yield ["filtered", f]
+    yield ["modified_since", 0, [n1], []]
+    yield ["created_since", 0, [n1 + "/" + n2, n2], [".pdf"]]
+
+
 def fdate_schemes(tier, nfolders):
     if nfolders == 0:
         return []
@@ -1042,6 +1089,35 @@ def _part(arg):
                                 requests += info.get("n", 0)
                                 for clause, msg in f:
                                     fails.append((clause, "fault", case, msg))
+    # wire names: folders addressed by path whose literal names collide with URL syntax (see module docstring)
+    wire_faults = WIRE_FAULTS_QUICK if quick else FAULT_KINDS
+    for j, (n1, n2, lib) in enumerate(wire_libraries(tier)):
+        if j % n != k:
+            continue
+        for page in ((2,) if quick else pages):
+            for call in wire_calls(n1, n2):
+                case = {"lib": lib, "page": page, "call": call}
+                f, info = run_case(case)
+                ev += 1
+                requests += info.get("n", 0)
+                outs["wire:" + str(info.get("out"))] = outs.get("wire:" + str(info.get("out")), 0) + 1
+                for clause, msg in f:
+                    fails.append((clause, "healthy", case, msg))
+            if page == 2:
+                flt = {k_: v[0] for k_, v in FILTER_DIMS.items()}
+                flt["folder_paths"] = [n1 + "/" + n2]
+                base = {"lib": lib, "page": page, "call": ["filtered", flt]}
+                nreq = run_case(base)[1].get("n", 0)
+                for kk in range(nreq):
+                    for kind in wire_faults:
+                        case = dict(base)
+                        case["faults"] = {str(kk): kind}
+                        f, info = run_case(case)
+                        ev += 1
+                        requests += info.get("n", 0)
+                        outs["wirefault:" + kind + ":" + str(info.get("out"))] = outs.get("wirefault:" + kind + ":" + str(info.get("out")), 0) + 1
+                        for clause, msg in f:
+                            fails.append((clause, "fault", case, msg))
     return {"ev": ev, "requests": requests, "fails": fails[:20000], "nfails": len(fails), "outs": outs, "samples": samples}
 
 
@@ -1086,6 +1162,10 @@ def run(ctx):
                    "folder-item timestamps: " + str(len(FOLDER_TIMES)) + " values " + str(FOLDER_TIMES) + " assigned by scheme (all schemes on <= "
                    + str(2 if ctx.quick else 3) + " folders, schemes {0, 3} above) x " + str(len(list(fdate_calls(ctx.tier)))) + " calls (dates, windows, "
                    "date x folder paths / extensions / patterns, *_since); "
+                   "wire names: every ordered pair of " + str(len(WIRE_NAMES_QUICK if ctx.quick else WIRE_NAMES)) + " literal folder names colliding with URL "
+                   "syntax " + str(WIRE_NAMES_QUICK if ctx.quick else WIRE_NAMES) + " (each next to the name it would decode to) x page sizes "
+                   + str([2] if ctx.quick else [1, 2, 3]) + " x " + str(len(list(wire_calls("a", "b")))) + " path-addressed calls, and every request index "
+                   "x fault kinds " + str(WIRE_FAULTS_QUICK if ctx.quick else FAULT_KINDS) + " of the nested folder_paths call; "
                    "distinct_nontrivial = distinct (phase, fault kind, outcome) classes",
            "transport_requests": req, "outcomes": outs, "samples": samples[:5], "exhaustive": True,
            "bounds": {"folders": 3 if ctx.quick else 4, "files_per_folder": 2, "page_sizes": "1..2" if ctx.quick else "1..3", "fault_depth": 1 if ctx.quick else 2,
@@ -1095,9 +1175,14 @@ def run(ctx):
                       "shaped_calls_per_library_and_scheme": len(list(shape_calls(ctx.tier))),
                       "malformed_body_kinds": BODY_KINDS, "malformed_bodies_full_up_to_folders": 2 if ctx.quick else 3,
                       "folder_times": FOLDER_TIMES, "folder_time_schemes": {"full_up_to_folders": 2 if ctx.quick else 3, "above": [0, len(FOLDER_TIMES) // 2]},
-                      "folder_dated_calls_per_library_and_scheme": len(list(fdate_calls(ctx.tier)))}}
+                      "folder_dated_calls_per_library_and_scheme": len(list(fdate_calls(ctx.tier))),
+                      "wire_names": WIRE_NAMES_QUICK if ctx.quick else WIRE_NAMES, "wire_libraries": len(list(wire_libraries(ctx.tier))),
+                      "wire_page_sizes": [2] if ctx.quick else [1, 2, 3], "wire_calls_per_library_and_page": len(list(wire_calls("a", "b"))),
+                      "wire_fault_kinds": WIRE_FAULTS_QUICK if ctx.quick else FAULT_KINDS}}
     return {"coverage": cov, "failures": fails, "harness_errors": herr,
             "assumptions": ["fake transport models Graph children / root:/path / token / site-id URLs with skip-style nextLink",
+                            "the server percent-decodes a request path exactly once; folder names are literal strings (a literal '%20' in a name "
+                            "is three characters, not a space)",
                             "HTTP 404 at the folder-lookup request is documented 'folder not found' behaviour and is not judged",
                             "fractional seconds are truncated by the client's ISO parser (its docstring says so); the reference compares truncated values",
                             "pattern semantics = fnmatchcase on the full path (statement: patterns apply to the full path)",
